@@ -8,10 +8,12 @@ pub mod c20;
 pub mod codec;
 pub mod connmon;
 pub mod matrix;
+pub mod pair;
 pub mod twins;
 
 pub fn dispatch(ctx: &Ctx) -> Option<Report> {
     Some(match ctx.prop.as_str() {
+        "C01" => pair::run(ctx),
         "C02" => codec::run_c02(ctx),
         "C03" => codec::run_c03(ctx),
         "C04" => c04::run(ctx),
